@@ -361,7 +361,8 @@ def contexts(tier, seed):
         f = {"outputs": ["pandas", "numpy", "sparse"],
              "trainings": {"pandas": TRAININGS, "numpy": REPRESENTATIVES, "sparse": REPRESENTATIVES},
              "ev1": {"A": text_events("A", "xyzw", 2) + A_NUMERIC, "a": a_small + a_TEXT[:2]}}
-        second = {"A": text_events("A", "xyzw", 1) + [("A", "text", ["w", "x"]), ("A", "text", ["z", "y"]), A_NUMERIC[0]],
+        second = {"A": [("A", "text", ["x"]), ("A", "text", ["w"]), ("A", "text", ["w", "x"]), ("A", "text", ["z", "y"]),
+                        A_NUMERIC[0]],
                   "a": a_small[:3] + a_TEXT[:1]}
         first = {"A": text_events("A", "xyzw", 2) + A_NUMERIC[:1], "a": a_small[:3] + a_TEXT[:1]}
         others = [t for t in TRAININGS if t not in REPRESENTATIVES]
